@@ -44,6 +44,21 @@ class _PathTimeout(BaseException):
     pass
 
 
+def exception_site(ex: BaseException) -> str:
+    """Innermost frame inside pyoak (or, failing that, the innermost frame) of a traceback."""
+    import traceback
+
+    frames = traceback.extract_tb(ex.__traceback__)
+    for fr in reversed(frames):
+        if "/pyoak/" in fr.filename:
+            return f"{fr.filename.split('/pyoak/')[-1]}:{fr.name}"
+    return f"{frames[-1].filename.split('/')[-1]}:{frames[-1].name}" if frames else "?"
+
+
+def unexpected_signature(ex: BaseException) -> str:
+    return f"unexpected-exception:{type(ex).__name__}:{exception_site(ex)}"
+
+
 @dataclass
 class _Decision:
     options: list[Any]  # feasible concrete outcomes, in exploration order
@@ -444,7 +459,7 @@ class Engine:
                 stop = False
                 try:
                     if use_alarm:
-                        signal.setitimer(signal.ITIMER_REAL, self.per_path_timeout)
+                        signal.setitimer(signal.ITIMER_REAL, self.per_path_timeout, 0.25)
                     try:
                         out = harness(self)
                     finally:
@@ -462,7 +477,14 @@ class Engine:
                     res.timeouts += 1
                     if len(res.timeout_scenarios) < 5:
                         res.timeout_scenarios.append(list(self.path_log))
-                except Violation as v:
+                except (Violation, Exception) as v:  # noqa: BLE001
+                    if not isinstance(v, Violation):
+                        if isinstance(v, HarnessError):
+                            raise
+                        # an exception escaping from the code under test where the harness expected
+                        # none: reported like any other violation (and, like any other, only
+                        # believed if it reproduces on replay with plain values)
+                        v = Violation(unexpected_signature(v), {"exception": f"{type(v).__name__}: {v}"[:400], "where": exception_site(v), "notes": list(self.path_log)[-6:]})
                     res.completed += 1
                     # a path cut short while still replaying its prefix has decisions
                     # (and solver scopes) beyond the point reached: drop them first
